@@ -241,6 +241,18 @@ TRIAGE = {
     "thorough": [],
 }
 
+def _grp(pred):
+    return {"quick": [r for r in TRIAGE["quick"] if pred(" ".join(r["args"]))], "thorough": []}
+
+
+TRIAGE_GROUPS = {
+    "map": _grp(lambda a: "maptree" in a),
+    "set": _grp(lambda a: "settree" in a),
+    "key": _grp(lambda a: "ktree" in a or "export-sizes" in a),
+    "list": _grp(lambda a: "maplist" in a or "setlist" in a or "klist" in a or "export-sizes" in a),
+    "seg": _grp(lambda a: "--sys seg" in a or a.startswith("sweep --kind pairs") or "dpairs" in a or "purge" in a or "layout" in a),
+}
+
 LEVEL = {p: "model_checking" for p in SPECS}
 
 RULES = {
